@@ -53,6 +53,9 @@ Body(b, a) ==
     [] b = "sum3" -> IntT(a[1] + a[2] + a[3])          \* {x+y+z}
     [] b = "third" -> IntT(a[3])                       \* {z}
     [] b = "xz" -> IntT(a[1] * a[3])                   \* {x*z}         y is not mentioned
+    [] b = "pleft" -> IntT(1 - a[1])                   \* sb(1;)        a projection of sb::{x-y}: a monad
+    [] b = "pright" -> IntT(a[1] - 2)                  \* sb(;2)
+    [] b = "pmid" -> IntT(1 + a[1] + 3)                \* s3(1;;3)      a projection of s3::{x+y+z}: a monad
     [] OTHER -> "?"
 
 \* what one application of the callable of entry e prescribes: log entries and result
